@@ -209,6 +209,29 @@ def check(run, tier, seed):
 
 
 def replay(run, path):
+    c = json.loads(open(path).read())
+    if 'retyped' in c:
+        from .. import tsprops as T
+        g = T.build([tuple(x) for x in c['steps']], c.get('gmeta')).get_stationary_graph()
+        readers = dict(READERS)
+        readers.update(TS_READERS)
+        for r in readers:
+            _try(lambda: readers[r](g))
+        s, d, ty = c['retyped']
+        g.change_edge_type(s, d, H.ET[ty])
+        why = None
+        if ty != '->' and _try(lambda: g.is_stationary_graph()) == ('ok', True):
+            why = f'is_stationary_graph() is True after retyping {s!r} {ty} {d!r}'
+        fresh = fresh_copy(g)
+        for r in readers:
+            a = _try(lambda: readers[r](g))
+            b = _try(lambda: readers[r](fresh_copy(g)) if r.startswith('skeleton') else readers[r](fresh))
+            if a != b and why is None:
+                why = f'{r} differs from a fresh copy after retyping'
+        print('retype scenario:', why)
+        if why:
+            run.violation(dict(c, why=why), note=why[:200])
+        return 1 if run.violations else 0
     return HP.replay_file(run, path, oracle, 'C04')
 
 
